@@ -200,7 +200,7 @@ def run_c07_link(tier, wd):
     for is_master in (False, True):
         for self_addr in (False, True):
             cfg = os.path.join(wd, "mcla_%d_%d.cfg" % (is_master, self_addr))
-            vlib.write_cfg(cfg, "Spec", {"IsMaster": is_master, "SelfAddr": self_addr, "MaxSteps": 3},
+            vlib.write_cfg(cfg, "Spec", {"IsMaster": is_master, "SelfAddr": self_addr, "MaxSteps": 3, "Small": False},
                            ["NoViolation"], view="View")
             r = vlib.model_check("MC_LinkAddr.tla", cfg, workers=4, timeout=600)
             if r["violated"]:
@@ -209,11 +209,17 @@ def run_c07_link(tier, wd):
             design["transitions"] += r["generated"]
             # every (secondary state, header) pair once
             cfg2 = os.path.join(wd, "covla_%d_%d.cfg" % (is_master, self_addr))
-            vlib.write_cfg(cfg2, "Spec", {"IsMaster": is_master, "SelfAddr": self_addr, "MaxSteps": 3},
+            vlib.write_cfg(cfg2, "Spec", {"IsMaster": is_master, "SelfAddr": self_addr, "MaxSteps": 3, "Small": False},
                            ["ExportAll"], view="CoverView")
             hists, _ = vlib.cover("MC_LinkAddr.tla", cfg2, workers=4)
             if tier == "quick" and len(hists) > 1200:
                 hists = rnd.sample(hists, 1200)
+            # 3-switch cover of the frame-count-bit automaton over the well-addressed primary frames
+            cfg3 = os.path.join(wd, "covla3_%d_%d.cfg" % (is_master, self_addr))
+            vlib.write_cfg(cfg3, "Spec", {"IsMaster": is_master, "SelfAddr": self_addr, "MaxSteps": 5, "Small": True},
+                           ["ExportAll"], view="CoverView")
+            h3, _ = vlib.cover("MC_LinkAddr.tla", cfg3, workers=4)
+            hists = hists + h3
             for h in hists:
                 scen.append(linkconc.addr_scenario("la_%d" % n, h, is_master, self_addr))
                 n += 1
